@@ -165,6 +165,7 @@ CHECKS['C02'] = {
 }
 
 CHECKS['C13'] = {
+    'grid': {'sets': ['c13'], 'bound': 'complete over the operator table for expressions of two and three binary operators between plain operands (144 + 1728 cases); IS [NOT] NULL / [NOT] IN around every operator; NOT, unary minus, negative literals, cast / subscript / qualified operands on either side of every operator; parenthesised operands (also in the middle of every operator pair); line breaks between an operator and a unary minus (about 2390 cases)'},
     'verus_units': ['parser', 'tokenizer', 'converter'],
     'clause_prefixes': ['c13'],
     'technique': 'contract-based deductive verification (Verus): BinaryOperators::new / get, Parser::get_token_precedence, Parser::parse_unary_operator and tokenize extracted from /repo; the precedence numbers are read from the source on every run, the functions are proved to use exactly them, and a lemma proves that the numbers realise the standard SQL chain',
@@ -176,6 +177,7 @@ CHECKS['C13'] = {
     'unproved': ['reference-grouping correctness of the whole expression parser', 'keyword table content (KEYWORDS) and IS NOT / NOT IN keyword fusion', 'statement grammar (parse_select ...)'],
 }
 CHECKS['C14'] = {
+    'grid': {'sets': ['c14'], 'bound': '16 valid statements: every prefix, every single token deleted / duplicated / swapped with its neighbour; 3000 token soups over an 85-word vocabulary and 1500 random Unicode strings from a fixed generator; bracket / NOT / minus / subscript nesting to depth 200; 9 definitions and queries that must be rejected (about 7370 cases)'},
     'verus_units': ['parser', 'tokenizer', 'converter', 'extract'],
     'clause_prefixes': ['c14'],
     'technique': 'contract-based deductive verification (Verus) of tokenize (with its local TokenizerState), TokenLocation::extract_near and the parser\'s token cursor (Parser::new/next/current/current_location/create_error/expect_token/expect_and_consume_token, ParserError::new) extracted from /repo',
